@@ -594,6 +594,35 @@ let c11_chk t =
       ((k, mk), c)) in
   "ok=" ^ sb (diff_ok (eval q dp) (eval q dc) evs)
 
+
+(* ---------- C14: update notifications ---------- *)
+let p_ukey s = List.map z_of_string (split_on '.' s)
+let fmt_ukey k = join "." sz k
+(* updm <nops> { R <n> {key cl} | F } : notifications per F, in order *)
+let c14_updm t =
+  let nops = ti t in
+  let st = ref u_init in
+  let outs = ref [] in
+  for _ = 1 to nops do
+    (match tok t with
+     | "R" -> let n = ti t in
+       let cs = tlist t n (fun t -> let k = p_ukey (tok t) in let cl = tz t in (k, cl)) in
+       st := recv !st cs
+     | "F" -> let (st', ns) = flush !st in
+       st := st';
+       outs := join "," (fun (k, key) -> (match k with NUpd -> "U" | NDel -> "D") ^ ":" ^ fmt_ukey key) ns :: !outs
+     | x -> failwith ("bad op " ^ x))
+  done;
+  String.concat " # " (List.rev !outs)
+(* chk_upd <npresent> {key} <nchanged> {key} <nnotes> {U|D key} *)
+let c14_chk t =
+  let np = ti t in let present = tlist t np (fun t -> p_ukey (tok t)) in
+  let nc = ti t in let changed = tlist t nc (fun t -> p_ukey (tok t)) in
+  let nn = ti t in
+  let notes = tlist t nn (fun t -> let k = (match tok t with "U" -> NUpd | "D" -> NDel | x -> failwith ("bad kind " ^ x)) in
+                           let key = p_ukey (tok t) in (k, key)) in
+  "ok=" ^ sb (fate_ok present changed notes)
+
 (* ---------- dispatch ---------- *)
 let handlers : (string * (toks -> string)) list ref = ref [
   "chunks", c08_chunks;
@@ -608,6 +637,8 @@ let handlers : (string * (toks -> string)) list ref = ref [
   "chk_members", c18_chk;
   "crdtm", c01_crdtm;
   "ivm", c11_ivm;
+  "updm", c14_updm;
+  "chk_upd", c14_chk;
   "chk_sub", c11_chk;
   "fromconn", c06_fromconn;
   "chk_reload", c06_chk;
@@ -645,4 +676,4 @@ let () =
        end else print_char '\n'
      done
    with End_of_file -> ());
-  flush stdout
+  Stdlib.flush stdout
